@@ -28,6 +28,7 @@ import (
 	api_v1 "k8s.io/api/core/v1"
 	discovery_v1 "k8s.io/api/discovery/v1"
 	networking "k8s.io/api/networking/v1"
+	"k8s.io/apimachinery/pkg/apis/meta/v1/unstructured"
 	"k8s.io/client-go/tools/cache"
 	"k8s.io/client-go/tools/record"
 )
@@ -56,6 +57,8 @@ type VerifC15 struct {
 	ApPol    cache.Store
 	ApLog    cache.Store
 	DosProt  cache.Store
+	DosPol   cache.Store
+	DosLog   cache.Store
 	Recorder *record.FakeRecorder
 }
 
@@ -79,6 +82,8 @@ func NewVerifC15(o VerifC15Opts) *VerifC15 {
 		ApPol:    cache.NewStore(cache.DeletionHandlingMetaNamespaceKeyFunc),
 		ApLog:    cache.NewStore(cache.DeletionHandlingMetaNamespaceKeyFunc),
 		DosProt:  cache.NewStore(cache.DeletionHandlingMetaNamespaceKeyFunc),
+		DosPol:   cache.NewStore(cache.DeletionHandlingMetaNamespaceKeyFunc),
+		DosLog:   cache.NewStore(cache.DeletionHandlingMetaNamespaceKeyFunc),
 		Recorder: record.NewFakeRecorder(1 << 16),
 	}
 	nsi := &namespacedInformer{
@@ -95,8 +100,8 @@ func NewVerifC15(o VerifC15Opts) *VerifC15 {
 		appProtectPolicyLister:       v.ApPol,
 		appProtectLogConfLister:      v.ApLog,
 		appProtectUserSigLister:      cache.NewStore(cache.DeletionHandlingMetaNamespaceKeyFunc),
-		appProtectDosPolicyLister:    cache.NewStore(cache.DeletionHandlingMetaNamespaceKeyFunc),
-		appProtectDosLogConfLister:   cache.NewStore(cache.DeletionHandlingMetaNamespaceKeyFunc),
+		appProtectDosPolicyLister:    v.DosPol,
+		appProtectDosLogConfLister:   v.DosLog,
 		appProtectDosProtectedLister: v.DosProt,
 		isSecretsEnabledNamespace:    true,
 		areCustomResourcesEnabled:    true,
@@ -351,6 +356,41 @@ func (v *VerifC15) AddDosProtected(d *v1beta1.DosProtectedResource) bool {
 func (v *VerifC15) DeleteDosProtected(d *v1beta1.DosProtectedResource) {
 	_ = v.DosProt.Delete(d)
 	v.Lbc.dosConfiguration.DeleteProtectedResource(d.Namespace + "/" + d.Name)
+}
+
+// SetDosPolicy / SetDosLogConf put (obj != nil) or remove an APDosPolicy / APDosLogConf in the real
+// appprotectdos.Configuration, without going through the controller.
+func (v *VerifC15) SetDosPolicy(key string, obj *unstructured.Unstructured) {
+	if obj == nil {
+		v.Lbc.dosConfiguration.DeletePolicy(key)
+		return
+	}
+	v.Lbc.dosConfiguration.AddOrUpdatePolicy(obj)
+}
+
+func (v *VerifC15) SetDosLogConf(key string, obj *unstructured.Unstructured) {
+	if obj == nil {
+		v.Lbc.dosConfiguration.DeleteLogConf(key)
+		return
+	}
+	v.Lbc.dosConfiguration.AddOrUpdateLogConf(obj)
+}
+
+// DosProtectedFor runs the real GetDosProtectedThatReferencedDosPolicy / ...DosLogConf.
+func (v *VerifC15) DosProtectedFor(what, key string) []string {
+	var ps []*v1beta1.DosProtectedResource
+	switch what {
+	case "dospolicy":
+		ps = v.Lbc.dosConfiguration.GetDosProtectedThatReferencedDosPolicy(key)
+	case "doslogconf":
+		ps = v.Lbc.dosConfiguration.GetDosProtectedThatReferencedDosLogConf(key)
+	}
+	out := []string{}
+	for _, p := range ps {
+		out = append(out, p.Namespace+"/"+p.Name)
+	}
+	sort.Strings(out)
+	return out
 }
 
 // ProbeVsrBackup asks the real serviceReferenceChecker whether the backup Service of a
